@@ -157,6 +157,23 @@ pub fn run(ctx: &Ctx, st: &mut Stats) {
         st.eval(&H { pic: &run, text: Some("") }, check);
         st.eval(&H { pic: &format!("HH24{}MI", run), text: None }, check);
     }
+    // 3a'. a valid prefix followed by a long tail with a multi-byte character at every byte offset (error paths that
+    //      echo or slice the input must respect character boundaries)
+    let tails = ctx.tier.pick(8, 640, 1200);
+    ctx.par(st, "valid prefix + long tail with a multi-byte character at every offset", true, 0, tails * FIXED_PICTURES.len() as i64, |st, i, _| {
+        let pic = FIXED_PICTURES[(i % FIXED_PICTURES.len() as i64) as usize];
+        let off = (i / FIXED_PICTURES.len() as i64) as usize;
+        for (prefix, ch) in [("2021", 'é'), ("12", '日'), ("", '\u{1F600}'), ("+1 ", 'é'), ("2021-03", '日')] {
+            let mut t = String::with_capacity(off + 16);
+            t.push_str(prefix);
+            while t.len() < off {
+                t.push('x');
+            }
+            t.push(ch);
+            t.push_str("xx");
+            st.eval(&H { pic, text: Some(&t) }, check);
+        }
+    });
     // 3b. grammar-generated pictures (up to 60 tokens) and leniently spelled texts damaged at byte level
     let n = ctx.tier.pick(60, 300_000, 6_000_000);
     ctx.par(st, "generated pictures + spelled texts with byte-level damage", false, 0, n, |st, _, rng| {
